@@ -225,7 +225,9 @@ class WritableVersion(dns.zone.WritableVersion):
         if self.zone.relativize:
             return name == dns.name.empty
         else:
-            return name == self.zone.origin
+            # The version's origin: while a zone is being loaded without an
+            # origin argument, only the version knows the origin ($ORIGIN).
+            return name == self.origin
 
     def _maybe_cow_with_name(
         self, name: dns.name.Name
